@@ -51,10 +51,10 @@ fn subst(data: &[u8], root: &Path) -> Vec<u8> {
 pub fn plant_entry(root: &Path, e: &Entry) {
     match e {
         Entry::Dir { path } => {
-            let _ = std::fs::create_dir_all(root.join(path));
+            let _ = std::fs::create_dir_all(root.join(osp(path)));
         }
         Entry::File { path, data } => {
-            let p = root.join(path);
+            let p = root.join(osp(path));
             if let Some(par) = p.parent() {
                 let _ = std::fs::create_dir_all(par);
             }
@@ -70,7 +70,7 @@ pub fn plant_entry(root: &Path, e: &Entry) {
             }
         }
         Entry::Symlink { path, target } => {
-            let p = root.join(path);
+            let p = root.join(osp(path));
             if let Some(par) = p.parent() {
                 let _ = std::fs::create_dir_all(par);
             }
@@ -98,7 +98,7 @@ pub fn snapshot(root: &Path) -> Snap {
         };
         for e in rd.flatten() {
             let p = e.path();
-            let rel = p.strip_prefix(root).unwrap().display().to_string();
+            let rel = rel_name(p.strip_prefix(root).unwrap());
             let md = match std::fs::symlink_metadata(&p) {
                 Ok(m) => m,
                 Err(_) => continue,
@@ -307,7 +307,7 @@ pub fn set_scratch_for_hash(p: &Path) {
 pub fn restore(root: &Path, s: &Snap) {
     wipe(root);
     for (k, v) in s {
-        let p = root.join(k);
+        let p = root.join(osp(k));
         match v {
             Node::Dir => {
                 let _ = std::fs::create_dir_all(&p);
@@ -382,6 +382,47 @@ pub fn abs(root: &Path, rel: &str) -> PathBuf {
     if rel.is_empty() {
         root.to_path_buf()
     } else {
-        root.join(rel)
+        root.join(osp(rel))
+    }
+}
+
+/// Project paths are Strings. A file-name byte that is not part of valid UTF-8 is spelled as the
+/// private-use character U+F700 + byte (0x80..=0xFF), so that trees may contain names that are
+/// not UTF-8 (legal on Unix) while every model keeps working on Strings. `osp` decodes a
+/// tree-relative path for the operating system, `rel_name` encodes what the OS returns.
+pub fn osp(rel: &str) -> PathBuf {
+    use std::os::unix::ffi::OsStringExt;
+    if !rel.chars().any(|c| ('\u{F780}'..='\u{F7FF}').contains(&c)) {
+        return PathBuf::from(rel);
+    }
+    let mut b: Vec<u8> = Vec::with_capacity(rel.len());
+    for c in rel.chars() {
+        if ('\u{F780}'..='\u{F7FF}').contains(&c) {
+            b.push((c as u32 - 0xF700) as u8);
+        } else {
+            let mut buf = [0u8; 4];
+            b.extend_from_slice(c.encode_utf8(&mut buf).as_bytes());
+        }
+    }
+    PathBuf::from(std::ffi::OsString::from_vec(b))
+}
+
+pub fn rel_name(p: &Path) -> String {
+    use std::os::unix::ffi::OsStrExt;
+    let mut bytes = p.as_os_str().as_bytes();
+    let mut out = String::new();
+    loop {
+        match std::str::from_utf8(bytes) {
+            Ok(s) => {
+                out.push_str(s);
+                return out;
+            }
+            Err(e) => {
+                let (good, rest) = bytes.split_at(e.valid_up_to());
+                out.push_str(std::str::from_utf8(good).unwrap_or(""));
+                out.push(char::from_u32(0xF700 + rest[0] as u32).unwrap_or('?'));
+                bytes = &rest[1..];
+            }
+        }
     }
 }
